@@ -59,8 +59,9 @@ def c_text(cid):
 class World:
     """A scratch plug-in plus a private view of the sasmodels package: every file of the package is a symbolic
     link to the tree under test except the two kernel templates, which are copies this history may edit."""
-    def __init__(self, root, idx, name="verif_c17"):
+    def __init__(self, root, idx, name="verif_c17", bare=False):
         self.name = name
+        self.bare = bare            # load the plug-in by its bare name through SAS_MODELPATH instead of by path
         self.dir = os.path.join(root, "h%d" % idx)
         self.cache = os.path.join(self.dir, "cache")
         os.makedirs(self.cache)
@@ -101,7 +102,9 @@ class World:
         env = dict(os.environ)
         env.update(PYTHONPATH=self.pkg, SAS_DLL_PATH=self.cache, PYTHONHASHSEED="0", SAS_OPENCL="none",
                    PYTHONDONTWRITEBYTECODE="1")
-        self.proc = subprocess.Popen([common.PY, self.wpath, self.mpath], env=env, stdin=subprocess.PIPE,
+        if self.bare:
+            env["SAS_MODELPATH"] = self.dir
+        self.proc = subprocess.Popen([common.PY, self.wpath, self.name if self.bare else self.mpath], env=env, stdin=subprocess.PIPE,
                                      stdout=subprocess.PIPE, stderr=subprocess.PIPE, text=True, cwd=self.dir)
 
     def stop(self):
@@ -154,7 +157,8 @@ def gen_history(rng, n):
 
 def run_history(root, idx, init, ops):
     name = NAMES[idx % len(NAMES)] if idx else NAMES[0]     # every other history uses a long plug-in name
-    w = World(root, idx, name)
+    bare = idx % 3 == 2                                     # every third history loads the plug-in by bare name (SAS_MODELPATH)
+    w = World(root, idx, name, bare=bare)
     for f in FILES:
         w.write_file(f, init[f][0], init[f][1])
     obs, errors, names = [], [], []
@@ -175,7 +179,8 @@ def run_history(root, idx, init, ops):
                 names.append((str(op[1]), vals[3], vals[4], vals[5]))
                 obs.append((int(round(m)), int(round(c)), int(round(h)), int(vals[6])))
         libs = sorted(f for f in os.listdir(w.cache) if f.endswith(".so"))
-        return dict(init={f: list(v) for f, v in init.items()}, ops=[list(o) for o in ops], observed=obs, libs=libs, errors=errors, plugin_name=name, names=names)
+        return dict(init={f: list(v) for f, v in init.items()}, ops=[list(o) for o in ops], observed=obs, libs=libs, errors=errors, plugin_name=name, names=names,
+                    loaded_by="bare name via SAS_MODELPATH" if bare else "path")
     finally:
         w.stop()
 
@@ -239,6 +244,7 @@ def main(run):
                         r["ops"][:oi + 1], r["init"], list(got), list(now)), desc))
                     break
         distinct.add(json.dumps(r["ops"]))
+        stats["loaded_by_bare_name"] = stats.get("loaded_by_bare_name", 0) + int(r["loaded_by"] != "path")
         stats["libs"] += len(r["libs"])
         run.sample(dict(init=r["init"], ops=r["ops"], observed=r["observed"], libraries=r["libs"]))
     # tag-injectivity check on the explored sources
